@@ -2137,6 +2137,11 @@ class ListSelector(Selector):
         self._validate_type(val)
         if val is not None:
             for o in val:
+                if o is None and self.allow_None and self.check_on_set and None not in self.objects:
+                    # (allow_None concerns the value as a whole, not its items)
+                    raise ValueError(
+                        f"{_validate_error_prefix(self)} does not accept None as an item."
+                    )
                 super()._validate_value(o)
 
     def _update_state(self):
